@@ -85,6 +85,7 @@ type Contract struct {
 	Callers       []string // whitelist of calling functions (nil = anyone)
 	CallersProps  []string
 	GhostBefore   []*GhostAnchor // ghost assignments executed just before the matching statement
+	GhostCalls    []*GhostCall   // lemma applications just before the matching statement
 	GhostAfter    []*GhostAnchor // ghost assignments executed after the statement whose text starts with Anchor
 	GhostEntry    []*Effect      // ghost assignments executed at function entry (explicit instrumentation)
 	LoopInvs      []*Clause
@@ -114,6 +115,19 @@ type PredDecl struct {
 type GhostAnchor struct {
 	Anchor string
 	Eff    *Effect
+}
+
+// GhostCall: "ghostcall ANCHOR [if COND :] LEMMA(args)": just before every
+// statement whose text starts with Anchor the lemma is applied to the argument
+// values: its (split-variable-free) preconditions become obligations, its
+// (split-variable-free) conclusions are assumed. The lemma itself is proved
+// separately, case by case.
+type GhostCall struct {
+	Anchor string
+	Cond   ast.Expr
+	Lemma  string
+	Args   []ast.Expr
+	Src    string
 }
 
 // InstMod: "modifies BASE->field": the function may write that field of the
@@ -613,6 +627,42 @@ func (cf *ContractFile) parseOne(path string) error {
 					cl.Name = fmt.Sprintf("assert.%d", len(c.AssertBefore)+1)
 				}
 				c.AssertBefore = append(c.AssertBefore, &AssertAnchor{Anchor: rest[1 : 1+j], Cl: cl})
+			case "ghostcall":
+				if !strings.HasPrefix(rest, "\"") {
+					return fail(fmt.Errorf("ghostcall needs a quoted anchor"))
+				}
+				jc := strings.Index(rest[1:], "\"")
+				if jc < 0 {
+					return fail(fmt.Errorf("ghostcall: unterminated anchor"))
+				}
+				gc := &GhostCall{Anchor: rest[1 : 1+jc]}
+				bodyC := strings.TrimSpace(strings.TrimPrefix(strings.TrimSpace(rest[2+jc:]), ":"))
+				if strings.HasPrefix(bodyC, "if ") {
+					i := strings.Index(bodyC, " : ")
+					if i < 0 {
+						return fail(fmt.Errorf("ghostcall if without ' : '"))
+					}
+					ce, err := parser.ParseExpr(rewriteSpecSyntax(bodyC[3:i]))
+					if err != nil {
+						return fail(err)
+					}
+					gc.Cond = ce
+					bodyC = bodyC[i+3:]
+				}
+				ce, err := parser.ParseExpr(rewriteSpecSyntax(bodyC))
+				if err != nil {
+					return fail(err)
+				}
+				call, ok := ce.(*ast.CallExpr)
+				if !ok {
+					return fail(fmt.Errorf("ghostcall needs LEMMA(args)"))
+				}
+				id, ok := call.Fun.(*ast.Ident)
+				if !ok {
+					return fail(fmt.Errorf("ghostcall needs LEMMA(args)"))
+				}
+				gc.Lemma, gc.Args, gc.Src = id.Name, call.Args, bodyC
+				c.GhostCalls = append(c.GhostCalls, gc)
 			case "ghostbefore":
 				// ghostbefore "<statement text prefix>" : [if COND :] LHS = RHS  (ghost assignment just before the statement)
 				if !strings.HasPrefix(rest, "\"") {
